@@ -487,6 +487,8 @@ FAMILIES = {
 }
 
 MCS = {
+    "tochars": dict(module="mc/MC_ToChars.tla", cfg_quick="mc/MC_ToChars_quick.cfg", cfg_thorough="mc/MC_ToChars_thorough.cfg",
+                    xmx="8g", timeout=1800),
     "sqrt": dict(module="alg/SqrtAlg.tla", cfg_quick="alg/SqrtAlg_quick.cfg", cfg_thorough="alg/SqrtAlg_thorough.cfg",
                  xmx="8g", timeout=1800),
     "elastic": dict(module="mc/MC_Elastic.tla", cfg_quick="mc/MC_Elastic_quick.cfg",
@@ -620,7 +622,7 @@ CHECKS = {
                "operator then conversion to the left type; ++/-- = +/- 1.",
                "not covered: all 2^64 operand pairs per kernel and equivalence of the compiled IR (explicit-state checking "
                "cannot enumerate them); inputs on which the bare expression is undefined are skipped"),
-    "C13": chk(["text"], [],
+    "C13": chk(["text"], ["tochars"],
                "events = cnl::to_chars(first, first+cap, v) for scaled_integer (radix 2/3/8/10, exponents -70..70, reps 8..64 "
                "bit, core list + VERIF_SEED sample) and integers (8..128 bit, elastic; bases 2/8/10/16/36) x all values of 8-bit "
                "reps (16-bit in thorough), boundary/random values of wider reps x buffer lengths 0..capacity+2; the buffer ends "
@@ -631,7 +633,9 @@ CHECKS = {
                "on success first < p <= last, errc{} and exactly [first,p) written; on failure value_too_large with p == last; no "
                "byte outside [first,last) touched; no trap, assertion or hang; static variants always succeed and print the "
                "same text.",
-               "reads outside the buffer are not observed; the as-coded layout solver is not yet model-checked separately"),
+               "reads outside the buffer are not observed; MC_ToChars model-checks the as-coded layout solver (solve_fixed, "
+               "solve_scientific, the choice, both fill routines) for every (significand digits <= 19, decimal exponent, "
+               "capacity) in a box: unless one of the source's own assertions fails, no write leaves the buffer"),
     "C14": chk(["text"], [],
                "same recorded calls as C13 (those that succeeded); the bytes are tokenised as -?d*(.d*)?(e-?d+)? (scaled) or a "
                "numeral in the requested base (integers); non-trivial = short buffer or negative value",
